@@ -258,6 +258,24 @@ def keyword_calls(part, _=None):
     part.nstates(5)
 
 
+def frontend_probe(part, _=None):
+    """front end against the generators for both methods (cheap: run under every hash seed of the hostile cycle - which generator a
+    method name selects must not depend on the iteration order of a set or dict)"""
+    from chmpy import sampling as S
+
+    for method, single, batch in (("sobol", S.quasirandom_sobol, S.quasirandom_sobol_batch), ("kgf", S.quasirandom_kgf, S.quasirandom_kgf_batch)):
+        for (n, D, seed) in ((5, 3, 1), (16, 2, 7), (3, 1, 100)):
+            part.ev()
+            part.tr()
+            got = np.asarray(S.quasirandom(n, D, method=method, seed=seed))
+            want = np.asarray(batch(seed, seed + n - 1, D))
+            one = np.asarray(S.quasirandom(D, method=method, seed=seed))
+            if got.shape != want.shape or not (np.abs(got - want).max() <= 1e-12) or not (np.abs(one - np.asarray(single(seed, D))).max() <= 1e-12):
+                part.fail("front-end:%s:probe" % method, "quasirandom(%d, %d, method=%r, seed=%d) does not return the points of the %s generators" % (n, D, method, seed, method), {"kind": "probe"})
+            part.outcome(("probe", method))
+    part.nstates(2)
+
+
 def reference_worker(part, dims):
     from chmpy.sampling import quasirandom_sobol_batch
 
@@ -284,6 +302,7 @@ def run(ctx):
     frontend_history(ctx, 3 if ctx.thorough else 2)
     kgf_seed_zero(ctx)
     ctx.hostile(keyword_calls)
+    ctx.hostile(frontend_probe, all_hash_seeds=True)
     ctx.log("reference done")
     ws = windows(ctx.thorough)
     sob_dims = [1, 2, 3, 10, 100, 1000]
@@ -311,6 +330,8 @@ def replay(ctx, case):
         net_check(ctx)
     elif k == "ref":
         reference_worker(ctx, [case["d"]])
+    elif k == "probe":
+        frontend_probe(ctx)
     elif k == "kwcall":
         keyword_calls(ctx)
     elif k == "kgf0":
